@@ -116,7 +116,7 @@ def setj(node, **kw):
         node.k = kw['k']
 
 
-PURE_CALLS = {'gdstk::gdsii_real_to_double', 'strlen', 'fabs', 'sqrt', 'cos', 'sin', 'tan', 'atan2', 'acos', 'asin', 'atan', 'llround', 'lround', 'round', 'floor', 'ceil', 'exp', 'log', 'pow', 'hypot', 'fmod',
+PURE_CALLS = {'gdstk::gdsii_real_to_double', 'gdstk::gdsii_real_from_double', 'strlen', 'fabs', 'sqrt', 'cos', 'sin', 'tan', 'atan2', 'acos', 'asin', 'atan', 'llround', 'lround', 'round', 'floor', 'ceil', 'exp', 'log', 'pow', 'hypot', 'fmod',
               'gdstk::get_layer', 'gdstk::get_type', 'gdstk::make_tag', 'gdstk::cplx_from_angle', 'gdstk::cross', 'gdstk::hash', 'strcmp', 'memcmp'}
 PURE_METHODS = ('length', 'length_sq', 'inner', 'cross', 'angle', 'ortho')
 _clone_id = [0]
@@ -213,9 +213,25 @@ def inline_temps(fn, only=None):
             if st.k != 'DeclStmt' or len([x for x in st.c if x is not None]) != 1:
                 continue
             v = st.c[0]
-            if v is None or v.k != 'VarDecl' or v.child('init') is None or '[' in (v.t or '') or '&' in (v.t or ''):
+            if v is None or v.k != 'VarDecl' or v.child('init') is None or '[' in (v.t or ''):
                 continue
             if only is not None and v.d not in only:
+                continue
+            if '&' in (v.t or ''):
+                # a reference bound to a fixed object (`T& r = local.member;`, `this->member`): every use of r is that object
+                obj = strip(v.child('init'))
+                cur = obj
+                while cur is not None and cur.k == 'MemberExpr' and not (cur.arrow and strip(cur.child('base')).k != 'CXXThisExpr'):
+                    cur = strip(cur.child('base'))
+                if '&&' in (v.t or '') or cur is None or not (cur.k == 'CXXThisExpr' or (cur.k == 'DeclRefExpr' and cur.dk in ('local', 'param') and '*' not in (cur.t or '') and '&' not in (cur.t or ''))):
+                    continue
+                uses = [x for x in fn.body.walk() if x.k == 'DeclRefExpr' and x.d == v.d]
+                if not uses or len(uses) > 24:
+                    continue
+                for u in uses:
+                    replace_child(u.parent, u, clone_node(obj, fn))
+                set_children(comp, [(c, 'x') for c in comp.c if c is not None and c is not st])
+                changed = True
                 continue
             if not _const_var(v.t) and _reassigned(fn, v):
                 continue            # effectively const: declared once with an initialiser, never written again, address never taken
@@ -722,7 +738,68 @@ def _subst_clone(n, fn, binding, at):
     for y in c.walk():
         y.j = dict(y.j)
         y.j['cfgat'] = at.id          # control-flow position of everything that was inlined: the call it replaces
+    # `(*e).f` (a reference parameter bound to `*this` or `*ptr`) is `e->f`
+    for y in list(c.walk()):
+        if y.k == 'MemberExpr' and not y.arrow and y.child('base') is not None:
+            b = strip(y.child('base'))
+            if b is not None and b.k == 'UnaryOperator' and b.op == '*' and b.child('sub') is not None:
+                setj(y, arrow=True)
+                set_children(y, [((b.child('sub') if ch is y.child('base') else ch), r) for ch, r in pairs(y)])
     return c
+
+
+def _subst_clone_folded(n, fn, binding, at):
+    return fold_consts(_subst_clone(n, fn, binding, at), fn)
+
+
+def _const_of(n):
+    n0 = strip(n)
+    while n0 is not None and n0.k in CASTS + ('ParenExpr',) and n0.c and n0.c[0] is not None and n0.cv is None:
+        n0 = n0.c[0]
+    if n0 is not None and n0.cv is not None and n0.k != 'DeclRefExpr':
+        return n0.cv
+    return None
+
+
+def fold_consts(root, fn):
+    """N-FOLD (only on code put back from a helper, where substituting `i + 1` or `0` for a parameter leaves `(i + 1) + 1`, `0 + 1`):
+    integer `c1 + c2` -> literal, `(x + c1) + c2` -> `x + (c1 + c2)`, `x + 0` -> x. Integer addition is associative modulo 2^n."""
+    changed = True
+    while changed:
+        changed = False
+        for n in list(root.walk()):
+            if n.k != 'BinaryOperator' or n.op not in ('+', '-') or n.parent is None:
+                continue
+            t = (n.ct or n.t or '').replace('const ', '').strip()
+            if t not in _INTS:
+                continue
+            l, r = n.child('lhs'), n.child('rhs')
+            cl, cr = _const_of(l), _const_of(r)
+            new = None
+            if cl is not None and cr is not None:
+                new = mk_node(fn, 'IntegerLiteral', n.l, cv=(cl + cr) if n.op == '+' else (cl - cr), t=n.t, ct=n.ct, cfgat=n.j.get('cfgat'))
+            elif cr is not None:
+                l0 = strip(l)
+                if cr == 0:
+                    new = l
+                elif l0 is not None and l0.k == 'BinaryOperator' and l0.op in ('+', '-') and _const_of(l0.child('rhs')) is not None and (l0.ct or l0.t or '').replace('const ', '').strip() in _INTS:
+                    c1 = _const_of(l0.child('rhs')) * (1 if l0.op == '+' else -1)
+                    tot = c1 + (cr if n.op == '+' else -cr)
+                    if tot == 0:
+                        new = l0.child('lhs')
+                    else:
+                        lit = mk_node(fn, 'IntegerLiteral', n.l, cv=abs(tot), t=n.t, ct=n.ct, cfgat=n.j.get('cfgat'))
+                        new = mk_node(fn, 'BinaryOperator', n.l, op='+' if tot > 0 else '-', t=n.t, ct=n.ct, cfgat=n.j.get('cfgat'))
+                        set_children(new, [(l0.child('lhs'), 'lhs'), (lit, 'rhs')])
+            elif cl == 0 and n.op == '+':
+                new = r
+            if new is not None:
+                if n is root:
+                    return new
+                replace_child(n.parent, n, new)
+                changed = True
+                break
+    return root
 
 
 def _structure(stmts, f, binding, at, assign):
@@ -739,10 +816,10 @@ def _structure(stmts, f, binding, at, assign):
                 return out, True            # `return;` of a void helper: nothing more on this path
             if assign is None:
                 return None
-            out.append(assign(_subst_clone(v, f, binding, at)))
+            out.append(assign(_subst_clone_folded(v, f, binding, at)))
             return out, True
         if not any(x.k == 'ReturnStmt' for x in s.walk()):
-            out.append(_subst_clone(s, f, binding, at))
+            out.append(_subst_clone_folded(s, f, binding, at))
             continue
         if s.k != 'IfStmt' or any(r not in ('cond', 'then', 'else') for c_, r in pairs(s) if c_ is not None):
             return None
@@ -763,7 +840,7 @@ def _structure(stmts, f, binding, at, assign):
             else:
                 ec = comp
         n = mk_node(f, 'IfStmt', at.l, cfgat=at.id)
-        kids = [(_subst_clone(s.child('cond'), f, binding, at), 'cond')]
+        kids = [(_subst_clone_folded(s.child('cond'), f, binding, at), 'cond')]
         for lst, role in ((tl, 'then'), (el, 'else')):
             if not lst and role == 'else':
                 continue
@@ -848,15 +925,19 @@ def _inline_structured(f, c, h, binding):
         # by reference do not occur elsewhere in the statement
         stmt = c
         while stmt.parent is not None and stmt.parent.k != 'CompoundStmt':
-            if stmt.parent.k not in ('BinaryOperator', 'CompoundAssignOperator', 'UnaryOperator', 'ConditionalOperator') + CASTS:
+            if stmt.parent.k not in ('BinaryOperator', 'CompoundAssignOperator', 'UnaryOperator', 'ConditionalOperator', 'VarDecl', 'DeclStmt', 'InitListExpr', 'CXXConstructExpr',
+                                     'MaterializeTemporaryExpr', 'ExprWithCleanups', 'CXXBindTemporaryExpr') + CASTS:
+                return False
+            if stmt.parent.k == 'DeclStmt' and len([x for x in stmt.parent.c if x is not None]) != 1:
                 return False
             if stmt.parent.k == 'ConditionalOperator' or (stmt.parent.k == 'BinaryOperator' and stmt.parent.op in ('&&', '||', ',')):
                 return False            # conditionally evaluated
             stmt = stmt.parent
         if stmt.parent is None or stmt is c:
             return False
-        if sum(1 for x in stmt.walk() if x.k in ('CallExpr', 'CXXMemberCallExpr', 'CXXOperatorCallExpr', 'CXXConstructExpr', 'CXXNewExpr', 'CXXDeleteExpr')) != 1:
-            return False
+        others = [x for x in stmt.walk() if x.k in ('CallExpr', 'CXXMemberCallExpr', 'CXXOperatorCallExpr', 'CXXNewExpr', 'CXXDeleteExpr') and not any(y is x for y in c.walk())]
+        if any(not pure_expr(x) for x in others):
+            return False            # (copy constructors of iterators / vectors are taken to be free of effects)
         inside = {x.id for x in c.walk()}
         byref = set()
         for p_, a in zip(h.params, c.args):
@@ -939,23 +1020,23 @@ def inline_new_helpers(db):
                 body = [x for x in h.body.c if x is not None]
                 rets = [x for x in h.body.walk() if x.k == 'ReturnStmt']
                 if len(body) == 1 and body[0].k == 'ReturnStmt' and body[0].child('value') is not None:
-                    new = _subst_clone(body[0].child('value'), f, binding, c)
+                    new = _subst_clone_folded(body[0].child('value'), f, binding, c)
                     replace_child(c.parent, c, new)
                     changed = True
                     done += 1
                 elif not rets and is_statement_position(c) and c.parent.k != 'CompoundStmt' and not (c.parent.k == 'BinaryOperator'):
-                    news = [_subst_clone(x, f, binding, c) for x in body]
+                    news = [_subst_clone_folded(x, f, binding, c) for x in body]
                     comp = mk_node(f, 'CompoundStmt', c.l)
                     comp.j['cfgat'] = c.id
                     set_children(comp, [(n_, 'x') for n_ in news])
                     replace_child(c.parent, c, comp if len(news) != 1 else news[0])
                     changed = True
                     done += 1
-                elif rets and (len(rets) > 1 or (h.ret or '').strip() == 'void') and _inline_structured(f, c, h, binding):
+                elif rets and _inline_structured(f, c, h, binding):
                     changed = True
                     done += 1
                 elif not rets and c.parent.k == 'CompoundStmt':
-                    news = [_subst_clone(x, f, binding, c) for x in body]
+                    news = [_subst_clone_folded(x, f, binding, c) for x in body]
                     out = []
                     for ch, role in pairs(c.parent):
                         if ch is c:
